@@ -8,7 +8,9 @@ student program computes or what a call receives) whose truth is in the shape of
       namespace with __name__ == '__main__';
   R2  call(): every argument reaches the student function as the value given - by a literal text that evaluates back
       to an equal value of the same type, or as a temporary variable bound to the very object;
-  R3  the value handed back by call()/evaluate() is the object the student code stored in the target.
+  R3  the value handed back by call()/evaluate() is the object the student code stored in the target;
+  R4  the line reported for an exception is the raising line of the innermost traceback entry, however deep;
+  R5  the buffer standing in for sys.stdout records written text verbatim (no newline translation).
 """
 import ast
 
@@ -87,6 +89,37 @@ def r1_source_unmodified(ctx, sym, mod):
                   "(%d exec call(s), __name__ = %r)" % (len(ex), me.attrs['data'].get('__name__')),
                   "`if __name__ == '__main__': main()` does not run; globals are not kept")
     ctx.floor('R1', '_execute normal scenario', n, 1)
+    # compile() called from a module inherits that module's own `from __future__ import ...` compiler flags unless
+    # dont_inherit is set: the student's program would be compiled under a feature it did not ask for
+    import __future__ as _future
+    import sys as _sys
+    effective = []
+    for node in mod.tree.body:
+        if isinstance(node, ast.ImportFrom) and node.module == '__future__':
+            for a in node.names:
+                feature = getattr(_future, a.name, None)
+                due = feature.getMandatoryRelease() if feature is not None else None
+                if feature is not None and (due is None or due > _sys.version_info):
+                    effective.append(a.name)
+    sites = 0
+    for fn in mod.functions.values():
+        for c in ast.walk(fn):
+            if isinstance(c, ast.Call) and isinstance(c.func, ast.Name) and c.func.id == 'compile':
+                sites += 1
+                kw = {k.arg: k.value for k in c.keywords}
+                dont = kw.get('dont_inherit', c.args[4] if len(c.args) > 4 else None)
+                flags = kw.get('flags', c.args[3] if len(c.args) > 3 else None)
+                isolated = isinstance(dont, ast.Constant) and bool(dont.value)
+                ctx.check(isolated or not effective, 'R1', '%s:compile-inherits-future%s' % (fn._qualname, effective), mod,
+                          c, "compile() in %s inherits the compiler flags of `from __future__ import %s` at the top of "
+                          "the sandbox module (no dont_inherit=True)" % (fn._qualname, ', '.join(effective)),
+                          "`def area(r: flaot)` raises NameError in CPython and runs to the end in the sandbox; "
+                          "f.__annotations__ holds strings")
+                ctx.check(flags is None or (isinstance(flags, ast.Constant) and flags.value == 0), 'R1',
+                          '%s:compile-flags' % fn._qualname, mod, c,
+                          "compile() in %s is given compiler flags (%s)" % (fn._qualname, ast.unparse(flags) if flags is not None else ''),
+                          "the student's program is compiled under options a plain run does not use")
+    ctx.floor('R1', 'compile() call sites in the sandbox module', sites, 1)
     run_fn = mod.func('Sandbox.run')
     ctx.analysed_function(mod, run_fn)
     rec = symexec.Recorder()
@@ -131,8 +164,9 @@ def r2_arguments(ctx, sym, mod):
         return same, 'the text %r, which evaluates to %r' % (text, rebuilt)
 
     def new_self():
-        me = symexec.self_obj(mod, 'Sandbox', data={}, _temporary_variables=set(), _backup_variables={})
-        return me
+        attrs = dict(symexec.init_literals(mod, 'Sandbox'))
+        attrs.update(data={}, _temporary_variables=set(), _backup_variables={})
+        return symexec.self_obj(mod, 'Sandbox', **attrs)
 
     def calls_():
         return {'isinstance': lambda o, t: False if isinstance(t, str) or not isinstance(t, (type, tuple)) else
@@ -149,6 +183,22 @@ def r2_arguments(ctx, sym, mod):
                   "the argument %r is passed to the student function as %s" % (value, how),
                   "call('f', float('inf')) raises NameError (name 'inf' is not defined) inside the sandbox instead of "
                   "calling f with infinity")
+    # the same mutable object handed over again after it changed: the second call sees its value of that moment
+    for first, change in (([], lambda v: v.append(5)), ({'k': 1}, lambda v: v.update(j=2)), ({1}, lambda v: v.add(2)),
+                          ([1, 2], lambda v: v.clear())):
+        me = new_self()
+        fd = symexec.new_fd(sym, mod, calls=calls_(), extra={'SandboxVariable': 'SandboxVariable-class'})
+        value = first
+        before = repr(value)
+        symexec.run(fd, mt, ['arg', '0', value], bound_self=me, what='Sandbox._make_temporary')
+        change(value)
+        got, raised = symexec.run(fd, mt, ['arg', '0', value], bound_self=me, what='Sandbox._make_temporary')
+        ok, how = (False, 'an exception (%s)' % raised.kind) if raised is not None else (
+            faithful(got, value, me.attrs['data']) if isinstance(got, str) else (False, repr(got)))
+        ctx.check(ok, 'R2', '_make_temporary[%s passed again after it changed]' % before, mod, mt,
+                  "the argument %r (it was %s at an earlier call with the same object) is passed as %s" % (
+                      value, before, how),
+                  "cart = []; call('total', cart); cart.append(5); call('total', cart) computes total([])")
     # the call text as a whole: positional and keyword arguments, mixed
     me = new_self()
     fd = symexec.new_fd(sym, mod, calls=calls_(), extra={'SandboxVariable': 'SandboxVariable-class'})
@@ -197,12 +247,43 @@ def r3_result(ctx, sym, mod):
                   "call('f') returns something other than what f returned")
 
 
+def r4_exception_line(ctx, sym):
+    ctx.rule('R4', "ExpandedTraceback.__init__ executed abstractly on model tracebacks 1 to 1500 calls deep: the line "
+                   "reported for an exception is the raising line of the innermost entry (the rule of C17.R2, decided "
+                   "here for the clause 'the same kind of exception raised at the same source line')")
+    from .c17 import traceback_line_rule
+    traceback_line_rule(ctx, sym, 'R4')
+
+
+def r5_output_verbatim(ctx, sym, mod):
+    ctx.rule('R5', "Sandbox._start_mocking executed abstractly for the three print settings: the buffer that stands in "
+                   "for sys.stdout is built without initial text and without newline translation, so what the program "
+                   "writes is what is recorded")
+    from .c15 import start_mocking_observations, buffer_stores_verbatim
+    sm = mod.func('Sandbox._start_mocking')
+    ctx.analysed_function(mod, sm)
+    n = 0
+    for tag, ob in start_mocking_observations(ctx, sym, mod):
+        n += 1
+        made = ob['created']
+        ok = ob['raised'] is None and len(made) == 1 and buffer_stores_verbatim(
+            made[0]._name, made[0].attrs['ctor_args'], made[0].attrs['ctor_kwargs'])
+        ctx.check(ok, 'R5', '_start_mocking:buffer-keeps-text-verbatim' + tag, mod, sm,
+                  "the capture buffer is built as %s" % (
+                      ['%s(%s)' % (b._name, ', '.join([repr(a) for a in b.attrs['ctor_args']] + [
+                          '%s=%r' % kv for kv in b.attrs['ctor_kwargs'].items()])) for b in made],),
+                  "print('step', end='\\r') is recorded with a line feed")
+    ctx.floor('R5', 'print settings', n, 3)
+
+
 def run(ctx):
     sym = Symbols(ctx.repo)
     mod = ctx.repo.module(SANDBOX)
     r1_source_unmodified(ctx, sym, mod)
     r2_arguments(ctx, sym, mod)
     r3_result(ctx, sym, mod)
+    r4_exception_line(ctx, sym)
+    r5_output_verbatim(ctx, sym, mod)
     ctx.assume("observational equivalence itself (printed text, global values, exception kind and line for every "
                "program and input) is NOT decided: only the three structural clauses above, each a necessary "
                "condition of it; the input tracker's behaviour is decided under C15.R4, the patches' restoration "
